@@ -409,6 +409,12 @@ def rel_split(ctx, b, a, desc, info):
     if ok:
         t = int(sw[0]) + 1
         ia, ib = int(np.argmax(force)), int(np.argmin(tip))
+        if abs(ia - ib) > max(5, 0.05 * n):
+            # the curve handed to the step is not well-formed any more: an earlier step of the pipeline (a slope
+            # correction with the strategy that does not fit the curve) has moved the force maximum away from the
+            # turning point, "the farthest point" has no meaning then
+            ctx.event("split_input_not_well_formed_skipped")
+            return not np.array_equal(s0.astype(int), s1.astype(int))
         good = not strictly_dominated(t, tip, force)
         if ia == ib:
             good = good and t == ia
@@ -603,11 +609,65 @@ def assert_pipelines_valid():
                     raise HarnessError(f"generated pipeline {order} is not valid")
 
 
+@st.composite
+def st_details_history(draw):
+    """a pipeline ending in a step with options, and a second value for those options"""
+    case = draw(st_case().filter(lambda c: c["pipe"][-1][0] in (CTO, CFS)))
+    step = case["pipe"][-1][0]
+    if step == CTO:
+        alt = {"method": draw(st.sampled_from(["deviation_from_baseline", "fit_constant_line", "gradient_zero_crossing",
+                                               "frechet_direct_path"]))}
+    else:
+        alt = {"region": draw(st.sampled_from(REGIONS)), "strategy": draw(st.sampled_from(STRATEGIES))}
+    return dict(case, kind="details_history", alt=alt)
+
+
+def deep_equal(a, b):
+    if isinstance(a, dict) and isinstance(b, dict):
+        return set(a) == set(b) and all(deep_equal(a[k], b[k]) for k in a)
+    if isinstance(a, (list, tuple)) and isinstance(b, (list, tuple)):
+        return len(a) == len(b) and all(deep_equal(x, y) for x, y in zip(a, b))
+    if isinstance(a, np.ndarray) or isinstance(b, np.ndarray):
+        return np.array_equal(np.asarray(a), np.asarray(b), equal_nan=True)
+    if isinstance(a, float) and isinstance(b, float) and a != a and b != b:
+        return True
+    return a == b
+
+
+def check_details_history(case, ctx):
+    """the details returned with ret_details=True describe the request they were asked for: options A with details,
+    options B without, options B with details - the last answer is that of a fresh curve for options B"""
+    ids, opts_a = split_pipe(case["pipe"])
+    step = ids[-1]
+    opts_b = copy.deepcopy(opts_a)
+    opts_b[step] = dict(case["alt"])
+    differs = opts_b != opts_a
+    ctx.note_case(case, nontrivial=differs, classes=["details_history", step])
+    if not differs:
+        return
+    desc = {"step": step, "source": case["src"], "kind": "details_history"}
+    obj = fresh(case)
+    with warnings.catch_warnings():
+        warnings.simplefilter("ignore")
+        with ctx.no_raise("raises", desc) as guard:
+            obj.apply_preprocessing(list(ids), copy.deepcopy(opts_a), ret_details=True)
+            obj.apply_preprocessing(list(ids), copy.deepcopy(opts_b))
+            got = obj.apply_preprocessing(list(ids), copy.deepcopy(opts_b), ret_details=True)
+            want = fresh(case).apply_preprocessing(list(ids), copy.deepcopy(opts_b), ret_details=True)
+    if guard.ok:
+        ctx.check(deep_equal(got, want), "details-of-another-request", desc,
+                  f"details returned for options {opts_b.get(step)} after an earlier request with {opts_a.get(step)} "
+                  f"differ from those of a fresh curve (keys {sorted(got) if isinstance(got, dict) else got!r})")
+
+
 def run(ctx):
     assert_pipelines_valid()
     ctx.enumerate(recorded_cases(), check_case, label="recorded")
     ctx.hypothesis(st_case(), check_case, ctx.scale(900, 36000), label="synthetic")
+    ctx.hypothesis(st_details_history(), check_details_history, ctx.scale(120, 3600), label="details-history")
 
 
 def replay(case, ctx):
+    if case.get("kind") == "details_history":
+        return check_details_history(case, ctx)
     check_case(case, ctx)
